@@ -231,8 +231,11 @@ func main() {
 		"MULTI-LIFE histories of the real BaseWAL: every sequence of length 1..%d over {M write a message, E WriteSync EndHeight(next h=1,2,..), R head-size limit reached (flush + the group's own size check, rotates iff the head is non-empty), "+
 		"S Stop+Wait then a new BaseWAL.Start on the same directory (OnStart writes EndHeight 0 iff the head is empty, e.g. right after a rotation)} with >=1 rotation and <=2 restarts at every position; reference = the list of records written; "+
 		"after every history the files must concatenate to those records, read back completely, and SearchForEndHeight(h) for EVERY h in -1..hmax+1 with IgnoreDataCorruptionErrors both ways must report found iff EndHeight(h) is in the list "+
-		"and the returned reader must yield exactly the records after the marker, then end-of-log. evaluations = corrupted logs decoded; "+
-		"distinct_nontrivial = distinct (kind sequence, corruption class, record hit, outcome = messages returned + error class) where the corruption really changed the bytes", maxLen, nAlphabet, fileLen, lifeDepth))
+		"and the returned reader must yield exactly the records after the marker, then end-of-log, and every file of the group must start on a frame boundary (each file read ALONE decodes to whole written records until end-of-log). "+
+		"SCHEDULING: the BaseWAL's encoder writes through an in-package wrapper, so every underlying Group.Write is a scheduling point where the checker may run a TICK = what the two background tickers do (FlushAndSync + the group's own head-size check); "+
+		"every tick schedule with <=%d ticks at any underlying write is explored for all histories of length <=%d, and ticks that land INSIDE a record (bytes written so far not on a record boundary) for every history of every length "+
+		"(the group-write phase runs the tick after every underlying write). evaluations = corrupted logs decoded; "+
+		"distinct_nontrivial = distinct (kind sequence, corruption class, record hit, outcome = messages returned + error class) where the corruption really changed the bytes", maxLen, nAlphabet, fileLen, lifeDepth, maxTicks, tickDepth))
 	r.Assume(
 		"readers are the ones the repository uses: bytes.Reader / os.File (short read only at the end) and autofile.GroupReader; io.Readers that return short reads mid-stream are out of scope",
 		"written messages pass the kinds' own ValidateBasic (what a node writes); field values are the listed boundary values, not all values",
@@ -252,6 +255,7 @@ func main() {
 		r.Require(r.Get("corrupted_logs_with_nonempty_valid_prefix") > 0, "no corrupted log kept a non-empty valid prefix")
 		r.Require(r.Get("messages_read_after_skipping_a_corruption") > 0, "skip mode never resynchronised after a corruption")
 		r.Require(r.Get("searches_found") > 0 && r.Get("searches_not_found") > 0, "SearchForEndHeight did not both find and miss")
+		r.Require(r.Get("multi_life_runs_with_ticks") > 0 && r.Get("multi_life_ticks_executed") > 0, "no tick schedule was executed")
 		r.Require(r.Get("multi_life_histories_with_restart_on_empty_head") > 0 && r.Get("searches_multi_life") > 0, "no multi-life history restarted the WAL on an empty head after a rotation")
 		r.Require(r.Get("group_write_cases_with_rotation") > 0, "no rotation happened in the group phase")
 		r.Require(r.Get("evaluations_repair") > 0 && r.DistinctCount("repair_distinct_outcomes") > 10, "repair phase did not run")
